@@ -90,6 +90,13 @@ theorem addSimplexWithBasis_spec {c : C} (hI : Inv c) {bs : List Name} (hnd : bs
     | some n => exact (hid n hidc).1
   rw [g1]
   simp only [Bool.false_eq_true, if_false]
+  -- guard 1b: the requested name is not a member of the basis
+  have g1b : idInBasis bs id = false := by
+    cases hidc : id with
+    | none => rfl
+    | some n => simpa [idInBasis] using (hid n hidc).2
+  rw [g1b]
+  simp only [Bool.false_eq_true, if_false]
   -- guard 2: no higher simplex among the present members
   have g2 : (bs.any (fun b => c.contains b && c.orderOf? b != some 0)) = false := by
     rw [List.any_eq_false]
